@@ -422,7 +422,16 @@ static void run_mini(int k, const Bytes & in, std::ostringstream & o, std::ostri
       MMFlattenMessage(mm, p);
       MMessage * m2 = MMAllocMessage(0);
       if (MMUnflattenMessage(m2, p, fs) != CB_NO_ERROR) orc << k << " ORACLE FAIL wf MMUnflattenMessage: re-flattened bytes of the accepted MMessage are rejected\n";
-      else if (!MMAreMessagesEqual(mm, m2))              orc << k << " ORACLE FAIL wf MMUnflattenMessage: accepted MMessage does not survive flatten/unflatten\n";
+      else
+      {
+         // compared on the flattened bytes, as for the C++ parser (MMAreMessagesEqual looks fields up by name and is not
+         // meaningful for the duplicate field names MMUnflattenMessage lets through)
+         const uint32 fs2 = MMGetFlattenedSize(m2);
+         uint8 * p2 = (uint8 *) malloc(fs2 ? fs2 : 0);
+         MMFlattenMessage(m2, p2);
+         if ((fs2 != fs)||(memcmp(p, p2, fs) != 0)) orc << k << " ORACLE FAIL wf MMUnflattenMessage: accepted MMessage does not survive flatten/unflatten\n";
+         free(p2);
+      }
       MMFreeMessage(m2);
       free(p);
    }
